@@ -390,8 +390,11 @@ func main() {
 				if B == 0 {
 					B = 4096
 				}
-				for _, n := range []int{0, 1, B - 1, B, B + 1, 3*B + 5} {
+				for _, n := range []int{0, 1, B - 1, B, B + 1, 3*B + 5, 1<<20 + 100, 3 << 20} {
 					for _, chunk := range []int{0, 7} {
+						if n > 1<<20 && (chunk != 0 || rb == 16) {
+							continue // the megabyte tails: whole reads, two buffer sizes
+						}
 						for _, way := range []string{"Dialer.Dial", "DebugDialer.Dial", "DebugDialer.Dial-twice"} {
 							rb, n, chunk, way := rb, n, chunk, way
 							t.Do(func() string {
@@ -421,7 +424,7 @@ func main() {
 									return explore.Failf("valid-response-refused:"+way, "%v", err)
 								}
 								if got := drain(c1, b1); !bytes.Equal(got, tails[0]) {
-									return explore.Failf("post-handshake-bytes-differ:"+way, "server sent %d bytes behind the head, reader+connection yield %d:\n got %x\nwant %x", n, len(got), got, tails[0])
+									return explore.Failf("post-handshake-bytes-differ:"+way, "server sent %d bytes behind the head, reader+connection yield %d:\n got %x..\nwant %x..", n, len(got), got[:min(len(got), 48)], tails[0][:min(len(tails[0]), 48)])
 								}
 								if c2 != nil {
 									if got := drain(c2, b2); !bytes.Equal(got, tails[1]) {
@@ -557,3 +560,10 @@ func (l *lazyNet) SetReadDeadline(time.Time) error  { return nil }
 func (l *lazyNet) SetWriteDeadline(time.Time) error { return nil }
 
 var _ = ws.StateClientSide
+
+func min(a, b int) int {
+	if a < b {
+		return a
+	}
+	return b
+}
